@@ -110,3 +110,10 @@ check(
     "Outcomes compared canonically (-0.0 == 0.0), exceptions by class; entry points that reject legacy spellings by design and are not in the statement's list are excluded.",
     "4/C16",
 )
+check(
+    "C17",
+    "runtime monitoring: action histories (bounded-exhaustive over a fixed alphabet + random) executed on fresh real UnitSystemManagers with harness listeners on on_current / on_unit_changed, compared after every step with an executable reference model that also predicts the callback log; rejected calls must leave state and log unchanged",
+    "Held for every applicable sequence up to depth 3 (thorough 4) over 28 concrete actions and thousands of random 10-60 action histories over 3 ids: accept/reject, id set and order, current id or null, template, every mapping, exact callback log, GetCategoryDefaultUnit/GetQuantityDefaultUnit/GetUnitSystemById/GetNewId, ConvertToCurrent and ConvertScalarToCurrent (value, unit, category) against the database conversion, no two systems sharing a mapping object.",
+    "Selection only among registered systems and None; each SetCurrent call announces once; mapping units belong to the category's type; read-only flag not modelled.",
+    "4/C17",
+)
